@@ -17,7 +17,7 @@ import math
 from decimal import Decimal, getcontext
 from fractions import Fraction
 
-from .. import core
+from .. import core, history
 
 PID = "C14"
 THEOREMS = [
@@ -195,8 +195,96 @@ def _case(rng, cls):
             "diag": [[x, x] for x in xs], "diag_pos": [rng.random() for _ in xs], "skind": skind, "pre": pre}
 
 
+# sizes just above the usual block / chunk / switch-over sizes of a vectorised or blocked evaluation, never a
+# multiple of one (a full last block hides a dirty-scratch or off-by-one bug)
+SIZE_BASES = {"xs": [16, 32, 48, 64], "s": [100, 128], "m": [256], "l": [512], "xl": [1024]}
+LITE_FROM = 200      # diagrams above this size run only the calls listed in case["lite"]
+
+
+def _size_case(rng, band, kind=None, twice=False):
+    """One diagram just above a block size (band: xs 17-72, s 101-140, m 257-275, l 513-530, xl
+    1025-1040); kind: Fbig | Gbig (the other diagram has 1-5 points) | both (two large diagrams of different
+    sizes) | reorder (G = F permuted).  Points of the large diagram: births over 2, 4 or 20 units (dense to
+    sparse at sigma 0.4), a few exact duplicates; up to `LITE_FROM` points every relation is evaluated."""
+    c = _case(rng, "generic")
+    base = rng.choice(SIZE_BASES[band])
+    n = base + rng.randint(1, max(3, base // 30 + 1))
+    if twice:
+        n = 2 * base + rng.randint(1, 40)
+    kind = kind or rng.choice(["Fbig", "Gbig", "both", "reorder"])
+    span = rng.choice([2.0, 4.0, 20.0])
+
+    def big(k):
+        X = []
+        for _ in range(k):
+            if X and rng.random() < 0.02:
+                X.append(list(rng.choice(X)))
+            elif rng.random() < 0.2:
+                X.append(_pt(rng))
+            else:
+                b = rng.uniform(0, span)
+                X.append([b, b + rng.choice([rng.uniform(0.05, 1.5), rng.uniform(0.001, 0.1)])])
+        return X
+    small = _dgm(rng, rng.randint(1, 5))
+    if kind == "Fbig":
+        F, G = big(n), small
+    elif kind == "Gbig":
+        F, G = small, big(n)
+    elif kind == "both":
+        F, G = big(n), big(base + rng.randint(1, max(3, base // 30 + 1)) if rng.random() < 0.5 else rng.randint(base // 2, base))
+    else:
+        F = big(n)
+        G = F[:]
+        rng.shuffle(G)
+    perm = list(range(len(F)))
+    rng.shuffle(perm)
+    c.update(cls="size-" + band, F=F, G=G, perm=perm,
+             sigma=rng.choice([0.4, 0.4, 0.05, 1.0, round(rng.uniform(0.05, 3), 3)]))
+    if max(len(F), len(G)) > LITE_FROM:
+        c["lite"] = ["v"] if kind in ("reorder", "both") or band == "xl" else ["v", "sym"]
+    return c
+
+
+CONTAINERS = ["list", "tuple", "fortran", "strided", "readonly", "int"]
+
+
+def _layout_case(rng):
+    """The diagrams handed over as nested lists / tuples, Fortran-ordered, as a strided view of a larger buffer,
+    as read-only arrays, or (integer coordinates) as an int64 array; half of the cases also share the array
+    objects between all calls of the case."""
+    c = _case(rng, rng.choice(["generic", "reorder", "diag", "neg", "multi"]))
+    cont = rng.choice(CONTAINERS)
+    if cont == "int":
+        ip = lambda: [(b := float(rng.randint(-3, 6))), b + rng.randint(1, 4)]
+        c["F"] = [ip() for _ in range(rng.randint(2, 5))]
+        c["G"] = [ip() for _ in range(rng.randint(1, 5))]
+        c["H"] = [ip() for _ in range(rng.randint(1, 3))]
+        c["perm"] = list(range(len(c["F"])))[::-1]
+        c["shift"] = float(rng.choice([1, -3, 10, -100]))
+        c["diag"] = [[float(rng.randint(-2, 4))] * 2 for _ in c["diag"]]
+    c.update(cls="layout", cont=cont, shared=rng.random() < 0.5)
+    return c
+
+
 CLASSES = ["reorder", "near", "diag", "neg", "generic", "scale", "empty", "single",
            "far", "far", "tinymove", "chain", "smallscale", "bigsigma", "reorder", "far", "intsigma", "sweep", "wide", "wide", "multi", "multi"]
+
+
+def _extra(rng, tier):
+    """Container / layout cases and the size ladder (RULE).  quick: 4 layout cases, two diagrams at 17-72 points, one
+    at 101-140 (all relations), one reordering at 257-275 and one diagram at 513-530 points (formula and symmetry)."""
+    if tier == "quick":
+        plan = [("xs", None), ("xs", rng.choice(["both", "reorder"])), ("s", None), ("m", "reorder"),
+                ("l", rng.choice(["Fbig", "Gbig"]))]
+        n_layout = 4
+    else:
+        plan = ([("xs", None)] * 24 + [("s", None)] * 10 + [("m", None)] * 8 + [("l", "Fbig"), ("l", "Gbig")] * 2
+                + [("l", "both"), ("l", "reorder"), ("xl", "Fbig")])
+        n_layout = 60
+    cs = [_layout_case(rng) for _ in range(n_layout)] + [_size_case(rng, b, k) for b, k in plan]
+    if tier != "quick":
+        cs.append(_size_case(rng, "m", "Gbig", twice=True))     # 2 * 256 + r: two full blocks and a partial one
+    return cs
 
 
 def generate(rng, tier):
@@ -207,7 +295,7 @@ def generate(rng, tier):
         c = _case(rng, "reorder")
         c["sigma"] = s
         cases.append(c)
-    return cases
+    return cases + _extra(rng, tier)
 
 
 def corpus():
@@ -224,12 +312,14 @@ def corpus():
     if d.is_dir():
         for f in sorted(d.glob("*.json")):
             j = json.loads(f.read_text())
-            cs.append({k: j[k] for k in ("F", "G", "H", "sigma", "perm", "shift", "diag", "diag_pos", "skind", "pre") if k in j})
+            cs.append({k: j[k] for k in ("F", "G", "H", "sigma", "perm", "shift", "diag", "diag_pos", "skind", "pre", "lite", "cont", "shared") if k in j})
     return cs
 
 
 def search_generate(rng, n):
-    return [_case(rng, CLASSES[i % len(CLASSES)]) for i in range(n)]
+    cs = [_case(rng, CLASSES[i % len(CLASSES)]) for i in range(n)]
+    return cs + [_layout_case(rng) for _ in range(max(1, n // 20))] + [
+        _size_case(rng, b, k) for b, k in [("xs", None)] * max(1, n // 50) + [("s", None), ("m", None), ("l", None)]]
 
 
 # ---------------------------------------------------------------------------------- implementation
@@ -251,6 +341,28 @@ def impl_run(cases):
     def arr(X):
         return np.array(X, dtype=float).reshape(-1, 2)
 
+    def build(X, cont):
+        """The diagram X in the container / memory layout `cont` (same values in every layout)."""
+        a = arr(X)
+        if cont == "array" or not len(X):
+            return a
+        if cont == "list":
+            return [list(map(float, p)) for p in X]
+        if cont == "tuple":
+            return tuple(tuple(map(float, p)) for p in X)
+        if cont == "fortran":
+            return np.asfortranarray(a)
+        if cont == "strided":            # every other row, two inner columns of a larger buffer
+            big = np.full((2 * len(X), 4), 7.25)
+            big[::2, 1:3] = a
+            return big[::2, 1:3]
+        if cont == "readonly":
+            a.flags.writeable = False
+            return a
+        if cont == "int":                # integer-valued coordinates handed over as an integer array
+            return a.astype(np.int64) if all(float(x) == int(x) for p in X for x in p) else a
+        raise ValueError("unknown container %r" % (cont,))
+
     def f(x):
         x = float(x)
         return x if x == x and abs(x) != float("inf") else repr(x)
@@ -264,21 +376,36 @@ def impl_run(cases):
             elif kind == "npint":
                 s = np.int64(int(s))
             t = c["shift"]
+            cont, memo = c.get("cont", "array"), {}
+
+            def A(X):
+                # "shared": equal diagrams of one case are THE SAME object in every call of the case
+                if c.get("shared"):
+                    return history.intern(memo, X, lambda: build(X, cont))
+                return build(X, cont)
             # the history first (same process, same diagram contents, other sigmas), incl. a diagram against itself
-            hist = [[f(heat(arr(F), arr(G), ps)), f(heat(arr(F), arr(F), ps))] for ps in c.get("pre", [])]
-            o = {"hist": hist, "sf": f(heat(arr(F), arr(G), float(c["sigma"]))),
-                 "self": f(heat(arr(F), arr(F), s)),
-                 "v": f(heat(arr(F), arr(G), s)),
-                 "sym": f(heat(arr(G), arr(F), s)),
-                 "perm": f(heat(arr(F), arr([F[i] for i in c["perm"]]), s)),
-                 "dg": f(heat(arr(_with_diag(F, c["diag"], c["diag_pos"])), arr(_with_diag(G, c["diag"][::-1], c["diag_pos"])), s)),
-                 "sh": f(heat(arr([[b + t, d + t] for b, d in F]), arr([[b + t, d + t] for b, d in G]), s)),
-                 "FH": f(heat(arr(F), arr(H), s)),
-                 "HG": f(heat(arr(H), arr(G), s))}
-            try:
-                o["w1"] = f(wasserstein(arr(F), arr(G))) if wasserstein else None
-            except Exception as e:
-                o["w1"] = None
+            hist = [[f(heat(A(F), A(G), ps)), f(heat(A(F), A(F), ps))] for ps in c.get("pre", [])]
+            thunks = [
+                ("sf", lambda: heat(A(F), A(G), float(c["sigma"]))),
+                ("self", lambda: heat(A(F), A(F), s)),
+                ("v", lambda: heat(A(F), A(G), s)),
+                ("sym", lambda: heat(A(G), A(F), s)),
+                ("perm", lambda: heat(A(F), A([F[i] for i in c["perm"]]), s)),
+                ("dg", lambda: heat(A(_with_diag(F, c["diag"], c["diag_pos"])), A(_with_diag(G, c["diag"][::-1], c["diag_pos"])), s)),
+                ("sh", lambda: heat(A([[b + t, d + t] for b, d in F]), A([[b + t, d + t] for b, d in G]), s)),
+                ("FH", lambda: heat(A(F), A(H), s)),
+                ("HG", lambda: heat(A(H), A(G), s))]
+            lite = c.get("lite")       # large diagrams: only the listed calls (each costs |F|^2 + |G|^2 kernel terms)
+            o = {"hist": hist}
+            for k, th in thunks:
+                if not lite or k in lite:
+                    o[k] = f(th())
+            o["w1"] = None
+            if not lite:
+                try:
+                    o["w1"] = f(wasserstein(arr(F), arr(G))) if wasserstein else None
+                except Exception as e:
+                    o["w1"] = None
             return o
         outs.append(core.guarded(call))
     return outs
@@ -306,17 +433,62 @@ def _k(F, G, sigma):
     return tot / (s8 * _PI), plus / (s8 * _PI)
 
 
+FAST_PAIRS = 400      # kernel sums with more pairs than this are evaluated by _k_fast
+
+
+def _ld2dec(x):
+    """Exact Decimal value of an extended-precision number (two binary64 pieces)."""
+    hi = float(x)
+    return Decimal(hi) + Decimal(float(x - type(x)(hi)))
+
+
+def _k_fast(F, G, sigma):
+    """The same closed form as _k for LARGE diagrams, evaluated in x87 extended precision (64-bit significand,
+    eps 1.1e-19) with numpy: the binary64 inputs are exact there, every term is formed from the coordinate
+    differences and carries a relative error below (3|a| + 3) * 1.1e-19 for the exponent a (|a| e^a <= 0.37), and
+    the pairwise np.sum adds at most log2(#terms) * 1.1e-19 * k_plus: together below 1e-17 * k_plus, three orders
+    of magnitude under the comparison tolerance.  None when the platform's long double is not that format."""
+    import numpy as np
+    L = np.longdouble
+    if np.finfo(L).eps > 2e-19:
+        return None
+    A = np.array(F, dtype=float).reshape(-1, 2).astype(L)
+    B = np.array(G, dtype=float).reshape(-1, 2).astype(L)
+    s8 = L(8) * L(float(sigma))
+    b, d = A[:, 0][:, None], A[:, 1][:, None]
+    x, y = B[:, 0][None, :], B[:, 1][None, :]
+    e1 = np.exp(-((b - x) ** 2 + (d - y) ** 2) / s8)
+    e2 = np.exp(-((b - y) ** 2 + (d - x) ** 2) / s8)
+    den = 8 * Decimal(sigma) * _PI
+    return _ld2dec(np.sum(e1 - e2)) / den, _ld2dec(np.sum(e1 + e2)) / den
+
+
+def _kk(F, G, sigma):
+    if len(F) * len(G) > FAST_PAIRS:
+        r = _k_fast(F, G, sigma)
+        if r is not None:
+            return r
+    return _k(F, G, sigma)
+
+
 _memo = {}
 TOL_COEF = Decimal("3e-14")
+
+
+def _tol_coef(F, G):
+    """3e-14 for every diagram of the original design (<= 15 points); beyond that the a-priori bound of a
+    binary64 sum of P = max(|F|,|G|)^2 terms in ANY order, (P + 8) * 1.2e-16 (module docstring)."""
+    P = max(len(F), len(G)) ** 2
+    return max(TOL_COEF, Decimal("1.2e-16") * (P + 8))
 
 
 def _rad_tol(F, G, sigma):
     key = (core.sha([F, G]), sigma)
     if key not in _memo:
-        (kff, pff), (kgg, pgg), (kfg, pfg) = _k(F, F, sigma), _k(G, G, sigma), _k(F, G, sigma)
+        (kff, pff), (kgg, pgg), (kfg, pfg) = _kk(F, F, sigma), _kk(G, G, sigma), _kk(F, G, sigma)
         r = kff + kgg - 2 * kfg
         K2 = pff + pgg + 2 * pfg
-        tol2 = TOL_COEF * K2 + Decimal("1e-300")
+        tol2 = _tol_coef(F, G) * K2 + Decimal("1e-300")
         _memo[key] = (r, tol2, K2)
     return _memo[key][:2]
 
@@ -343,11 +515,17 @@ def _num(x):
     return isinstance(x, (int, float)) and x == x and abs(x) != float("inf")
 
 
+ALL_KEYS = ("v", "sym", "perm", "dg", "sh", "FH", "HG")
+
+
 def predicate(c, o):
     if "error" in o:
         return False, "exception: %s" % o
     F, G, H, s = c["F"], c["G"], c["H"], c["sigma"]
-    for k in ("v", "sym", "perm", "dg", "sh", "FH", "HG"):
+    # a "lite" case (large diagrams) asked for some of the calls only: exactly those must be there and are
+    # checked; every other case must carry all of them
+    keys = [k for k in ALL_KEYS if k in c["lite"]] if c.get("lite") else list(ALL_KEYS)
+    for k in keys:
         if not _num(o[k]):
             return False, "nan: heat value %s = %s is not a finite number" % (k, o[k])
         if o[k] < 0:
@@ -364,33 +542,39 @@ def predicate(c, o):
     for k in ("sf", "self"):
         if k in o and not _num(o[k]):
             return False, "nan: heat value %s = %s is not a finite number" % (k, o[k])
-    r, tol2 = _rad_tol(F, G, s)
-    r0 = max(r, Decimal(0))
-    v2 = Decimal(o["v"]) ** 2
-    if abs(v2 - r0) > tol2:
-        return False, "formula: heat^2 = %r but k(F,F)+k(G,G)-2k(F,G) = %s (tolerance %s)" % (float(v2), r0, tol2)
-    e = float(tol2.sqrt())
-    if "sf" in o and abs(Decimal(o["sf"]) ** 2 - v2) > 2 * tol2:
-        return False, "sigma-type: heat with sigma passed as %s = %r, as float = %r" % (c.get("skind"), o["v"], o["sf"])
+    has_v = "v" in keys
+    if has_v:
+        r, tol2 = _rad_tol(F, G, s)
+        r0 = max(r, Decimal(0))
+        v2 = Decimal(o["v"]) ** 2
+        if abs(v2 - r0) > tol2:
+            return False, "formula: heat^2 = %r but k(F,F)+k(G,G)-2k(F,G) = %s (tolerance %s; |F| = %d, |G| = %d)" % (
+                float(v2), r0, tol2, len(F), len(G))
+        e = float(tol2.sqrt())
+        if "sf" in o and abs(Decimal(o["sf"]) ** 2 - v2) > 2 * tol2:
+            return False, "sigma-type: heat with sigma passed as %s = %r, as float = %r" % (c.get("skind"), o["v"], o["sf"])
     if "self" in o and Decimal(o["self"]) ** 2 > _rad_tol(F, F, s)[1]:
         return False, "self: heat(F, F) = %r, not 0" % o["self"]
-    if abs(Decimal(o["sym"]) ** 2 - v2) > 2 * tol2:
+    if has_v and "sym" in keys and abs(Decimal(o["sym"]) ** 2 - v2) > 2 * tol2:
         return False, "symmetry: heat(G,F) = %r, heat(F,G) = %r" % (o["sym"], o["v"])
-    _, tp = _rad_tol(F, F, s)
-    if Decimal(o["perm"]) ** 2 > tp:
+    if "perm" in keys and Decimal(o["perm"]) ** 2 > _rad_tol(F, F, s)[1]:
         return False, "reorder: heat(F, reordered F) = %r, not 0" % o["perm"]
-    if abs(Decimal(o["dg"]) ** 2 - v2) > 2 * tol2:
+    if not has_v:
+        return True, ""
+    if "dg" in keys and abs(Decimal(o["dg"]) ** 2 - v2) > 2 * tol2:
         return False, "diagonal: adding diagonal points changed %r to %r" % (o["v"], o["dg"])
     # translation moves the inputs by rounding (b + t is rounded): allow the kernel's Lipschitz response
     # (heat_stability) to exactly that perturbation, computed in rational arithmetic
-    t = float(c["shift"])
-    ulp = float(sum(abs(Fraction(float(x) + t) - (Fraction(float(x)) + Fraction(t))) for p in F + G for x in p)) * 1.5
-    lip = ulp / (4 * s * math.sqrt(math.pi))
-    if abs(Decimal(o["sh"]) ** 2 - v2) > 2 * tol2 + Decimal(2 * lip * (o["v"] + o["sh"] + lip)):
-        return False, "translation: heat of the diagrams shifted by %r is %r, unshifted %r" % (c["shift"], o["sh"], o["v"])
-    eFH, eHG = float(_rad_tol(F, H, s)[1].sqrt()), float(_rad_tol(H, G, s)[1].sqrt())
-    if o["v"] > o["FH"] + o["HG"] + e + eFH + eHG:
-        return False, "triangle: d(F,G) = %r > d(F,H) + d(H,G) = %r + %r" % (o["v"], o["FH"], o["HG"])
+    if "sh" in keys:
+        t = float(c["shift"])
+        ulp = float(sum(abs(Fraction(float(x) + t) - (Fraction(float(x)) + Fraction(t))) for p in F + G for x in p)) * 1.5
+        lip = ulp / (4 * s * math.sqrt(math.pi))
+        if abs(Decimal(o["sh"]) ** 2 - v2) > 2 * tol2 + Decimal(2 * lip * (o["v"] + o["sh"] + lip)):
+            return False, "translation: heat of the diagrams shifted by %r is %r, unshifted %r" % (c["shift"], o["sh"], o["v"])
+    if "FH" in keys and "HG" in keys:
+        eFH, eHG = float(_rad_tol(F, H, s)[1].sqrt()), float(_rad_tol(H, G, s)[1].sqrt())
+        if o["v"] > o["FH"] + o["HG"] + e + eFH + eHG:
+            return False, "triangle: d(F,G) = %r > d(F,H) + d(H,G) = %r + %r" % (o["v"], o["FH"], o["HG"])
     w = _w1(F, G)
     bound = w / (4 * s * math.sqrt(math.pi))
     if o["v"] > bound * (1 + 1e-9) + e:
@@ -428,6 +612,9 @@ def _stmt(c, o):
                                            core.coq_R(float(o["v"])), core.coq_R(Fraction(tol2)))
 
 
+COQ_PAIRS = 300     # the original design stays below 150
+
+
 def coq_jobs(cases, outs):
     return []
 
@@ -436,6 +623,12 @@ def coq_judge(cases, outs, results):
     verdicts = ["disagree:not-expressible (nan/inf or exception where the model returns a real number)"] * len(cases)
     lemmas, idx = [], []
     for i, (c, o) in enumerate(zip(cases, outs)):
+        pairs = len(c["F"]) ** 2 + len(c["G"]) ** 2 + len(c["F"]) * len(c["G"])
+        if pairs > COQ_PAIRS:
+            # an interval certificate over thousands of exponentials is out of reach; these cases are judged by
+            # the predicate alone (closed form in extended precision)
+            verdicts[i] = "skip:%d kernel terms, no interval certificate above %d" % (pairs, COQ_PAIRS)
+            continue
         st = _stmt(c, o)
         if st is not None:
             idx.append(i)
@@ -447,15 +640,36 @@ def coq_judge(cases, outs, results):
 
 
 def shrink_candidates(c):
+    n_big = max(len(c["F"]), len(c["G"]))
+    if n_big > 16:
+        # large diagrams: every candidate costs a full run, so first ask for fewer calls ...
+        cur = c.get("lite") or list(ALL_KEYS)
+        for ks in (["v"], ["perm"], ["v", "sym"]):
+            if set(ks) < set(cur):
+                d = dict(c); d["lite"] = ks; yield d
     for key in ("F", "G", "H"):
         X = c[key]
-        if len(X) > (1 if key == "H" else 0):
+        if len(X) > 16:
+            # ... then drop halves, quarters, ... sixteenths (the size itself is usually what matters)
+            for parts in (2, 4, 8, 16):
+                step = -(-len(X) // parts)
+                for j in range(0, len(X), step):
+                    d = dict(c)
+                    d[key] = X[:j] + X[j + step:]
+                    if key == "F":
+                        d["perm"] = list(range(len(d["F"])))[::-1]
+                    yield d
+        elif len(X) > (1 if key == "H" else 0):
             for j in range(len(X)):
                 d = dict(c)
                 d[key] = X[:j] + X[j + 1:]
                 if key == "F":
                     d["perm"] = list(range(len(d["F"])))[::-1]
                 yield d
+    if c.get("shared"):
+        d = dict(c); d["shared"] = False; yield d
+    if c.get("cont", "array") != "array":
+        d = dict(c); d["cont"] = "array"; yield d
     if len(c["diag"]) > 1:
         d = dict(c); d["diag"] = c["diag"][:1]; d["diag_pos"] = c["diag_pos"][:1]; yield d
     pre = c.get("pre", [])
